@@ -143,6 +143,81 @@ __CPROVER_ensures((view == g_view && seg == g_seg) ==> __CPROVER_return_value ==
   __CPROVER_loop_invariant(out_ghost == ((IN_SUBSET && (g_seg < segment_num || (g_seg == segment_num && g_view < view))) ? 1 : 0)) \
   __CPROVER_decreases((long)pdi->max_view_num + num_subsets - view)
 
+/* ---- actual_subsets_are_approximately_balanced (PoissonLogLikelihoodWithLinearModelForMeanAndProjData.cxx), two statement kernels ----
+   From the property: "Subsets are reported as balanced exactly when all subsets process the same number of viewgrams."
+   Counting loops: the entry of subset s receives, exactly once, num_related(pair) for every pair that
+   find_basic_vs_nums_in_subset hands to subset s (same membership predicate IN_SUBSET, segment range
+   [-max_segment_num_to_process, max_segment_num_to_process]) - and lemma_related_count shows num_related(pair) is the number
+   of viewgrams processed for that pair. Ghost pair (g_view,g_seg), ghost subset g_sub. */
+int g_sub, g_nrel, g_add_bad;
+int K_num_related_ghost(int view, int seg)
+__CPROVER_assigns()
+__CPROVER_ensures(__CPROVER_return_value >= 1 && __CPROVER_return_value <= 8)
+__CPROVER_ensures((view == g_view && seg == g_seg) ==> __CPROVER_return_value == g_nrel)
+;
+/* num_vs_in_subset[s] += val for the pair (view, seg) */
+#define K_COUNT_ADD(s, view, seg, val)                                                                                \
+  do                                                                                                                  \
+    {                                                                                                                 \
+      const int K_val = (val);                                                                                        \
+      __CPROVER_assert((s) >= 0 && (s) < num_subsets, "num_vs_in_subset indexed inside [0,num_subsets)");             \
+      out_n++;                                                                                                        \
+      if ((view) == g_view && (seg) == g_seg && (s) == g_sub)                                                         \
+        {                                                                                                             \
+          if (K_val == g_nrel)                                                                                        \
+            out_ghost++;                                                                                              \
+          else                                                                                                        \
+            g_add_bad++; /* the pair was counted with a weight other than its number of related viewgrams */         \
+        }                                                                                                             \
+    }                                                                                                                 \
+  while (0)
+#define IN_SUBSET_B                                                                                                   \
+  (g_isbasic && -max_segment_num_to_process <= g_seg && g_seg <= max_segment_num_to_process && g_view >= pdi->min_view_num + g_sub \
+   && g_view <= pdi->max_view_num && (g_view - pdi->min_view_num - g_sub) % num_subsets == 0)
+#define CONTRACT_K_balanced_count                                                                                     \
+  __CPROVER_requires(__CPROVER_is_fresh(pdi, sizeof(*pdi)))                                                            \
+  __CPROVER_requires(pdi->min_view_num >= 0 && pdi->max_view_num < C06_MAXVIEWS && pdi->max_view_num >= -1 && pdi->min_view_num <= pdi->max_view_num + 1) \
+  __CPROVER_requires(num_subsets >= 1 && num_subsets <= C06_MAXVIEWS && C06_S_OK(num_subsets) && 0 <= g_sub && g_sub < num_subsets) \
+  __CPROVER_requires(max_segment_num_to_process >= 0 && max_segment_num_to_process <= C06_MAXSEG)                      \
+  __CPROVER_requires(out_n == 0 && out_ghost == 0 && g_add_bad == 0)                                                   \
+  __CPROVER_assigns(out_n, out_ghost, g_add_bad)                                                                       \
+  __CPROVER_ensures(out_ghost == (IN_SUBSET_B ? 1 : 0))                                                                \
+  __CPROVER_ensures(g_add_bad == 0)
+#define BEFORE_B(cond) ((IN_SUBSET_B && (cond)) ? 1 : 0)
+#define LC_K_balanced_count_0                                                                                         \
+  __CPROVER_assigns(subset_num, out_n, out_ghost, g_add_bad)                                                           \
+  __CPROVER_loop_invariant(0 <= subset_num && subset_num <= num_subsets && g_add_bad == 0)                             \
+  __CPROVER_loop_invariant(out_ghost == BEFORE_B(g_sub < subset_num))                                                  \
+  __CPROVER_decreases(num_subsets - subset_num)
+#define LC_K_balanced_count_1                                                                                         \
+  __CPROVER_assigns(segment_num, out_n, out_ghost, g_add_bad)                                                          \
+  __CPROVER_loop_invariant(-max_segment_num_to_process <= segment_num && segment_num <= max_segment_num_to_process + 1 && g_add_bad == 0) \
+  __CPROVER_loop_invariant(out_ghost == BEFORE_B(g_sub < subset_num || (g_sub == subset_num && g_seg < segment_num)))  \
+  __CPROVER_decreases((long)max_segment_num_to_process + 1 - segment_num)
+#define LC_K_balanced_count_2                                                                                         \
+  __CPROVER_assigns(view_num, out_n, out_ghost, g_add_bad)                                                             \
+  __CPROVER_loop_invariant(view_num >= pdi->min_view_num + subset_num && view_num <= pdi->max_view_num + num_subsets   \
+                           && (view_num - pdi->min_view_num - subset_num) % num_subsets == 0 && g_add_bad == 0)        \
+  __CPROVER_loop_invariant(out_ghost == BEFORE_B(g_sub < subset_num || (g_sub == subset_num && (g_seg < segment_num || (g_seg == segment_num && g_view < view_num))))) \
+  __CPROVER_decreases((long)pdi->max_view_num + num_subsets - view_num)
+/* verdict loop: true exactly when every entry equals entry 0 (ghost subset g_sub stands for every subset; on 'false' the
+   kernel's own witness g_w - the subset named in the warning - differs from entry 0) */
+int g_w;
+#define K_RECORD_WITNESS(s) (g_w = (s))
+#ifndef C06_S
+#define C06_S 4
+#endif
+#define CONTRACT_K_balanced_verdict                                                                                   \
+  __CPROVER_requires(num_subsets == C06_S && __CPROVER_is_fresh(num_vs_in_subset, C06_S * sizeof(int)) && 0 <= g_sub && g_sub < num_subsets) \
+  __CPROVER_assigns(g_w)                                                                                               \
+  __CPROVER_ensures(__CPROVER_return_value ==> num_vs_in_subset[g_sub] == num_vs_in_subset[0])                         \
+  __CPROVER_ensures(!__CPROVER_return_value ==> (1 <= g_w && g_w < num_subsets && num_vs_in_subset[g_w] != num_vs_in_subset[0]))
+#define LC_K_balanced_verdict_0                                                                                       \
+  __CPROVER_assigns(subset_num, g_w)                                                                                   \
+  __CPROVER_loop_invariant(1 <= subset_num && subset_num <= (num_subsets > 1 ? num_subsets : 1))                       \
+  __CPROVER_loop_invariant(g_sub < subset_num ==> num_vs_in_subset[g_sub] == num_vs_in_subset[0])                      \
+  __CPROVER_decreases(num_subsets - subset_num)
+
 /* ---- IterativeReconstruction::get_subset_num ---- */
 #define MAXSUB 128
 struct IVEC { int n; int e[MAXSUB]; }; /* VectorWithOffset<int> _current_subset_array (index range [0,n)) */
